@@ -292,9 +292,21 @@ func installFS(m *Machine) {
 	I["(*os.File).ReadAt"] = func(r *Run, fr *Frame, a []Value) Value {
 		hd := h(r, a[0])
 		b := a[1].(Slice).S
-		off := int(int64(a[2].(Num).C))
 		if hd.Closed {
 			return Tuple{num(0), r.fsErr("closed")}
+		}
+		on := a[2].(Num)
+		if on.T != nil {
+			// an offset computed from file contents (a damaged index or footer): beyond the file, negative, or one
+			// of the feasible in-range values
+			beyond := r.TT.Bin("bvuge", on.T, r.TT.BV(on.W, uint64(len(hd.F.Data))))
+			if r.branch(Bool{T: beyond}) {
+				return Tuple{num(0), eof(r)}
+			}
+		}
+		off := int(int64(r.concretize(on, 0, uint64(len(hd.F.Data)))))
+		if off < 0 {
+			return Tuple{num(0), r.newError("negative offset")}
 		}
 		if off >= len(hd.F.Data) {
 			return Tuple{num(0), eof(r)}
